@@ -50,10 +50,11 @@ impl crate::TimeSource for FixedTime {
     }
 }
 
-struct FixedLog(bool);
+struct FixedLog(bool, std::sync::Mutex<Vec<(u128, SystemTime, Duration)>>);
 
 impl TokenLog for FixedLog {
-    fn check_and_insert(&self, _: u128, _: SystemTime, _: Duration) -> Result<(), TokenReuseError> {
+    fn check_and_insert(&self, nonce: u128, issued: SystemTime, lifetime: Duration) -> Result<(), TokenReuseError> {
+        self.1.lock().unwrap().push((nonce, issued, lifetime));
         if self.0 { Ok(()) } else { Err(TokenReuseError) }
     }
 }
@@ -87,7 +88,8 @@ pub fn from_header_native(retry: bool, same_ip: bool, same_port: bool, age: u16,
     let mut cfg = ServerConfig::new(Arc::new(NoCrypto), Arc::new(TagTokenKey));
     cfg.retry_token_lifetime = Duration::from_secs(if retry { lifetime as u64 } else { 1 << 30 });
     cfg.validation_token.lifetime = Duration::from_secs(if retry { 1 << 30 } else { lifetime as u64 });
-    cfg.validation_token.log = Arc::new(FixedLog(log_ok));
+    let log = Arc::new(FixedLog(log_ok, std::sync::Mutex::new(Vec::new())));
+    cfg.validation_token.log = log.clone();
     cfg.time_source = Arc::new(FixedTime(issued + Duration::from_secs(age as u64)));
     let dst_cid = ConnectionId::new(&[4; 8]);
     let header = InitialHeader { dst_cid, src_cid: ConnectionId::new(&[5; 8]), token: Bytes::from(bytes), number: crate::packet::PacketNumber::U8(0), version: 1 };
@@ -109,6 +111,12 @@ pub fn from_header_native(retry: bool, same_ip: bool, same_port: bool, age: u16,
         }
     } else {
         let Ok(t) = r else { panic!("NEW_TOKEN tokens never produce an error") };
+        // the reuse log is keyed by the token's own nonce, issue time and the configured lifetime
+        for q in log.1.lock().unwrap().iter() {
+            assert!(q.0 == 0x1234_5678_9abc_def0_1122_3344_5566_7788, "reuse log consulted with a nonce that is not the token's");
+            assert!(q.1 == issued, "reuse log consulted with a time that is not the token's issue time");
+            assert!(q.2 == Duration::from_secs(lifetime as u64), "reuse log consulted with a lifetime that is not the configured one");
+        }
         assert!(t.validated == (same_ip && fresh && log_ok), "validated must mean: issued to this IP, within lifetime, not used before");
         assert!(t.retry_src_cid.is_none() && t.orig_dst_cid == dst_cid);
         4
